@@ -9,7 +9,7 @@ import nodecheck
 from nodecheck import Obs, kv, parse_msg, parse_cfg
 
 PROP = "C12"
-MODULES = ["DV.Properties.C12", "DV.Properties.C12Hist", "DV.Properties.C12Own"]
+MODULES = ["DV.Properties.C12", "DV.Properties.C12Hist", "DV.Properties.C12Own", "DV.Properties.ConfigTie"]
 KEEP = {"OUT": None, "CONN": ["state", "dir", "name", "live"], "PEER": ["conn", "reason", "disc"], "APP": None}
 T0 = 1700000000
 
@@ -228,6 +228,14 @@ def scenarios(rng: random.Random, tier: str):
                        nodegen.cea(2001, name, n(), n()) + " | adv 1")
             out.append(base + f" | rerr 0 hard | dial fail,fail | adv {wait} | adv 1 | adv {wait} | adv {wait}")
             out.append(base + " | rx 0 " + nodegen.dpr(n(), n(), name) + f" | eof 0 | adv {wait - 1} | adv 1 | adv {wait}")
+    # a dialled, ready peer also connects by itself; that second connection ends (in each way): the dialled one is still
+    # the peer's connection -- nothing is dialled while it lives, and the peer is dialled again once it has gone too
+    for wait in (2, 5):
+        for end2 in ("eof 2", "rerr 2 hard", "rx 2 " + nodegen.dpr(n(), n()) + " | eof 2"):
+            base = (cfg_line(1, 1, wait) + " | start ok,ok | rx 0 " + nodegen.cea(2001, "peer1.x", n(), n()) + " | acc | rx 2 " +
+                    nodegen.cer("peer1.x", "4", n(), n()) + f" | tick | {end2} | tick | adv {wait} | adv 1 | adv {wait}")
+            out.append(base)
+            out.append(base + f" | eof 0 | adv {wait - 1} | adv 1 | adv 1")
     # after a DPR the (persistent, not always-reconnect) peer comes back by itself, then that connection is lost without a
     # DPR: the old DPR no longer counts, the peer is dialled again after the wait
     for wait in (2, 5):
